@@ -579,7 +579,7 @@ def gen_ftp_plan_polite(rng):
         name = rng.choice(hostile.ODD_NAMES + ['l', 'l', 'a.txt', 'd'])
         if mlsd:
             lines.append(rng.choice(['type=file;size=3;modify=20200101000000; %s', 'type=dir; %s', 'type=OS.unix=slink:/etc/passwd; %s',
-                                     'type=OS.unix=symlink; %s', 'type=file;size=3;unix.mode=0644; %s', 'type=file;perm=r;unix.mode=9999; %s']) % name)
+                                     'type=OS.unix=symlink; %s', 'type=symlink;size=3; %s', 'type=symlink; %s', 'Type=SymLink;unix.mode=0777; %s', 'type=file;size=3;unix.mode=0644; %s', 'type=file;perm=r;unix.mode=9999; %s']) % name)
         else:
             lines.append(rng.choice(['lrwxrwxrwx 1 u g 1 Jan 1 2020 %s -> t', 'lrwxrwxrwx 1 u g 1 Jan 1 2020 %s -> /etc/passwd',
                                      'lrwxrwxrwx 1 u g 1 Jan 1 2020 %s -> ../../x', 'lrwxrwxrwx 1 u g 1 Jan 1 2020 %s', 'lrwxrwxrwx 1 u g 1 Jan 1 2020 %s -> ',
